@@ -175,19 +175,23 @@ structure Op (K : Type) where
 section
 variable {K : Type} [OfNat K 0] [DecidableEq K]
 
-/-- `linear = not (pad_mode == 'constant' and pad_const != 0)`; `Laplacian` passes
-`linear=True` unconditionally. -/
-def Op.isLinear (o : Op K) : Bool :=
-  match o.kind with
-  | .lap => true
-  | _ => !(o.pad == .constant && o.c != 0)
+/-- The `linear` flag a class passes to `Operator.__init__`.  `affineAware k` is GENERATED from
+`k.__init__`: `true` iff it computes `linear = not (pad_mode == 'constant' and pad_const != 0)`
+and passes `linear=linear`; `false` iff it passes `linear=True`. -/
+def Op.isLinear (affineAware : Kind → Bool) (o : Op K) : Bool :=
+  if affineAware o.kind then !(o.pad == .constant && o.c != 0) else true
 
-/-- `.adjoint`: `none` is the `ValueError` for a non-linear instance. -/
-def Op.adjoint (adjM : Method → Method) (adjP : Pad → Pad) (o : Op K) : Option (Op K) :=
+/-- `.adjoint`: `none` is the `ValueError` for a non-linear instance.  `guarded k` is
+GENERATED: `true` iff `k.adjoint` starts with `if not self.is_linear: raise ValueError`.
+Which instance is built (class, `_ADJ_METHOD`/`_ADJ_PADDING` applied or not, `pad_const`
+passed on or reset, sign) is hand-written here and pinned as text by the translator. -/
+def Op.adjoint (affineAware guarded : Kind → Bool) (adjM : Method → Method) (adjP : Pad → Pad)
+    (o : Op K) : Option (Op K) :=
+  if guarded o.kind && !(o.isLinear affineAware) then none else
   match o.kind with
-  | .pd => if o.isLinear then some ⟨.pd, adjM o.method, adjP o.pad, o.c, !o.neg⟩ else none
-  | .grad => if o.isLinear then some ⟨.div, adjM o.method, adjP o.pad, o.c, !o.neg⟩ else none
-  | .div => if o.isLinear then some ⟨.grad, adjM o.method, adjP o.pad, 0, !o.neg⟩ else none
+  | .pd => some ⟨.pd, adjM o.method, adjP o.pad, o.c, !o.neg⟩
+  | .grad => some ⟨.div, adjM o.method, adjP o.pad, o.c, !o.neg⟩
+  | .div => some ⟨.grad, adjM o.method, adjP o.pad, 0, !o.neg⟩
   | .lap => some ⟨.lap, o.method, o.pad, 0, o.neg⟩
 
 /-- `.derivative(point)`: the zero-padding instance for the affine variant, else `self`. -/
